@@ -1,5 +1,5 @@
 (** Proofs for C36 (Model/WalGc.v against Spec/WalGcSpec.v). *)
-From Coq Require Import List NArith Bool Lia ZifyN ZifyNat ZifyBool.
+From Coq Require Import List NArith Bool Lia ZifyN ZifyNat ZifyBool Sorted.
 From NoKV Require Import Model.RaftStore Spec.RaftStoreSpec Model.WalGc Spec.WalGcSpec.
 Import ListNotations.
 Local Open Scope N_scope.
@@ -128,3 +128,183 @@ Qed.
 Lemma recover_refuted_lost_write :
   recovered_get (run st0 (w2 ++ [WWatchdog])) 0 <> expect_get (w2 ++ [WWatchdog]) 0 None.
 Proof. vm_compute. discriminate. Qed.
+
+(** ** what does hold: the LSM side of the flush remover and of the recovery
+    cleanup, and everything when no raft group shares the WAL *)
+
+Record InvL (s : st) : Prop := {
+  il_sorted : StronglySorted N.lt (s_imms s ++ [s_active s]);
+  il_logptr : Forall (N.lt (s_logptr s)) (s_imms s ++ [s_active s]) }.
+
+Lemma sorted_snoc l a n :
+  StronglySorted N.lt (l ++ [a]) -> a < n -> StronglySorted N.lt ((l ++ [a]) ++ [n]).
+Proof.
+  induction l as [|x l IH]; intros Hs Han; cbn [app] in *.
+  - constructor; [constructor; [constructor|constructor]|constructor; [exact Han|constructor]].
+  - inversion Hs as [|? ? Hs' Hall]; subst. constructor; [apply IH; assumption|].
+    apply Forall_app. split; [exact Hall|]. constructor; [|constructor].
+    apply Forall_app in Hall. destruct Hall as [_ Ha]. inversion Ha; subst. lia.
+Qed.
+
+Lemma flush_shape s :
+  (fst (flush s) = s /\ snd (flush s) = [] /\ s_imms s = []) \/
+  exists id rest, s_imms s = id :: rest /\ s_imms (fst (flush s)) = rest /\
+    s_active (fst (flush s)) = s_active s /\ s_groups (fst (flush s)) = s_groups s /\
+    (s_logptr (fst (flush s)) = s_logptr s \/ s_logptr (fst (flush s)) = id) /\
+    (forall x, In x (snd (flush s)) -> x = id).
+Proof.
+  unfold flush. destruct (s_imms s) as [|id rest]; [left; auto|]. right. exists id, rest.
+  destruct (mem_get (s_mems s) id) as [|e kvs]; cbn [fst snd s_imms s_active s_groups s_logptr].
+  - repeat split; auto. intros x Hx. destruct (seg_exists (s_segs s) id); [destruct Hx as [<-|[]]; reflexivity|destruct Hx].
+  - repeat split; auto. intros x Hx.
+    destruct (can_remove (s_groups s) id && seg_exists (s_segs s) id); [destruct Hx as [<-|[]]; reflexivity|destruct Hx].
+Qed.
+
+Lemma raft_append_lsm s g first es :
+  s_imms (raft_append s g first es) = s_imms s /\ s_active (raft_append s g first es) = s_active s /\
+  s_logptr (raft_append s g first es) = s_logptr s.
+Proof.
+  unfold raft_append. destruct es; [auto|]. destruct (mem_append _ _ _); cbn; auto.
+Qed.
+Lemma raft_set_hs_lsm s g h :
+  s_imms (raft_set_hs s g h) = s_imms s /\ s_active (raft_set_hs s g h) = s_active s /\
+  s_logptr (raft_set_hs s g h) = s_logptr s.
+Proof. unfold raft_set_hs. destruct (hs_is_empty h); cbn; auto. Qed.
+Lemma raft_compact_lsm s g idx :
+  s_imms (raft_compact s g idx) = s_imms s /\ s_active (raft_compact s g idx) = s_active s /\
+  s_logptr (raft_compact s g idx) = s_logptr s.
+Proof.
+  unfold raft_compact. destruct ((idx =? 0) || _); [auto|].
+  destruct (mem_term _ _) as [t|[]]; auto; destruct (gp_seg _ =? 0); cbn; auto.
+Qed.
+
+Lemma invl_same s s' :
+  s_imms s' = s_imms s -> s_active s' = s_active s -> s_logptr s' = s_logptr s -> InvL s -> InvL s'.
+Proof. intros H1 H2 H3 [Ha Hb]. constructor; rewrite ?H1, ?H2, ?H3; assumption. Qed.
+
+Lemma step_invl s o : InvL s -> fresh_rotations (s_active s) [o] -> InvL (fst (step s o)).
+Proof.
+  intros HI Hf. destruct o as [k v|n| |g first es|g h|g idx| ]; cbn [step fst].
+  - apply (invl_same s); auto.
+  - destruct HI as [Ha Hb]. cbn in Hf. destruct Hf as [Hlt _]. constructor; cbn [s_imms s_active s_logptr].
+    + apply sorted_snoc; assumption.
+    + apply Forall_app. split; [exact Hb|]. constructor; [|constructor].
+      apply Forall_app in Hb. destruct Hb as [_ Hb]. inversion Hb; subst. lia.
+  - destruct (flush_shape s) as [[-> _]|(id & rest & Him & Him' & Hact & _ & Hlog & _)]; [exact HI|].
+    destruct HI as [Ha Hb]. rewrite Him in Ha, Hb. cbn [app] in Ha, Hb.
+    inversion_clear Ha as [|? ? Ha' Hall]. inversion_clear Hb as [|? ? Hid Hb'].
+    constructor; rewrite Him', Hact; [exact Ha'|]. destruct Hlog as [->| ->]; assumption.
+  - destruct (raft_append_lsm s g first es) as (H1 & H2 & H3). apply (invl_same s); auto.
+  - destruct (raft_set_hs_lsm s g h) as (H1 & H2 & H3). apply (invl_same s); auto.
+  - destruct (raft_compact_lsm s g idx) as (H1 & H2 & H3). apply (invl_same s); auto.
+  - apply (invl_same s); auto.
+Qed.
+
+Lemma step_active s o :
+  s_active (fst (step s o)) = match o with WRotate n => n | _ => s_active s end.
+Proof.
+  destruct o as [k v|n| |g first es|g h|g idx| ]; cbn [step fst]; try reflexivity.
+  - destruct (flush_shape s) as [[-> _]|(id & rest & _ & _ & Hact & _)]; auto.
+  - apply raft_append_lsm.
+  - apply raft_set_hs_lsm.
+  - apply raft_compact_lsm.
+Qed.
+
+Lemma run_invl ops : forall s, InvL s -> fresh_rotations (s_active s) ops -> InvL (run s ops).
+Proof.
+  induction ops as [|o ops IH]; intros s HI Hf; cbn [run]; [exact HI|].
+  apply IH.
+  - apply step_invl; [exact HI|]. destruct o; cbn in *; tauto.
+  - rewrite step_active. destruct o; cbn in *; tauto.
+Qed.
+
+Lemma invl_init ids act : 0 < act -> InvL (init ids act).
+Proof.
+  intros H. constructor; cbn.
+  - constructor; constructor.
+  - constructor; [exact H|constructor].
+Qed.
+
+(** the flush remover never takes a segment the LSM still needs *)
+Lemma flush_lsm_safe s :
+  InvL s -> forall id, In id (snd (step s WFlush)) -> ~ lsm_needed s (fst (step s WFlush)) id.
+Proof.
+  intros [Ha _] id Hin [Hmem _]. cbn [step] in *.
+  destruct (flush_shape s) as [(_ & Hnil & _)|(id0 & rest & Him & Him' & Hact & _ & _ & Hrm)].
+  - rewrite Hnil in Hin. destruct Hin.
+  - apply Hrm in Hin. subst id0. rewrite Him', Hact in Hmem. rewrite Him in Ha. cbn [app] in Ha.
+    inversion_clear Ha as [|? ? _ Hall]. rewrite Forall_forall in Hall.
+    assert (Hlt : id < id); [|lia].
+    apply Hall. apply in_or_app. destruct Hmem as [->|Hr]; [right; left; reflexivity|left; exact Hr].
+Qed.
+
+(** nor does the cleanup of a reopening DB *)
+Lemma recovery_lsm_safe s :
+  InvL s -> forall id, In id (recovery_removed s) -> ~ lsm_needed s s id.
+Proof.
+  intros [_ Hb] id Hin [Hmem _]. unfold recovery_removed in Hin.
+  destruct (s_logptr s =? 0); [destruct Hin|]. apply filter_In in Hin. destruct Hin as [_ Hc].
+  apply andb_true_iff in Hc. destruct Hc as [Hle _]. rewrite Forall_forall in Hb.
+  assert (Hlt : s_logptr s < id); [|lia].
+  apply Hb. apply in_or_app. destruct Hmem as [->|Hr]; [right; left; reflexivity|left; exact Hr].
+Qed.
+
+(** without raft groups *)
+Lemma step_groups_nil s o : is_raft_op o = false -> s_groups s = [] -> s_groups (fst (step s o)) = [].
+Proof.
+  intros Ho Hg. destruct o as [k v|n| |g first es|g h|g idx| ]; cbn [step fst s_groups]; try discriminate; auto.
+  destruct (flush_shape s) as [[-> _]|(id & rest & _ & _ & _ & Hgr & _)]; [exact Hg|]. rewrite Hgr. exact Hg.
+Qed.
+
+Lemma run_groups_nil ops : forall s, no_raft ops = true -> s_groups s = [] -> s_groups (run s ops) = [].
+Proof.
+  induction ops as [|o ops IH]; intros s Hn Hg; cbn [run]; [exact Hg|].
+  cbn [no_raft forallb] in Hn. apply andb_true_iff in Hn. destruct Hn as [Ho Hn].
+  apply IH; [exact Hn|]. apply step_groups_nil; [|exact Hg]. apply negb_true_iff. exact Ho.
+Qed.
+
+Lemma raft_needed_nil s id : s_groups s = [] -> ~ raft_needed s id.
+Proof. intros Hg (g & Hin & _). rewrite Hg in Hin. destruct Hin. Qed.
+
+Lemma step_removed_only o s id :
+  In id (snd (step s o)) -> o = WFlush \/ o = WWatchdog.
+Proof. destruct o; cbn [step snd]; auto; intros []. Qed.
+
+Lemma safe_no_raft s o :
+  InvL s -> s_groups s = [] -> is_raft_op o = false -> safe_step s o.
+Proof.
+  intros HI Hg Ho id Hin [Hl|Hr].
+  - destruct (step_removed_only o s id Hin) as [->| ->].
+    + exact (flush_lsm_safe s HI id Hin Hl).
+    + cbn [step snd watchdog] in Hin. unfold removable in Hin. rewrite Hg in Hin. cbn in Hin. destruct Hin.
+  - apply (raft_needed_nil _ id (step_groups_nil s o Ho Hg)). exact Hr.
+Qed.
+
+Lemma safe_recovery_no_raft s : InvL s -> s_groups s = [] -> safe_recovery s.
+Proof.
+  intros HI Hg id Hin [Hl|Hr].
+  - exact (recovery_lsm_safe s HI id Hin Hl).
+  - exact (raft_needed_nil s id Hg Hr).
+Qed.
+
+Theorem safe_partial ids act ops :
+  0 < act -> fresh_rotations act ops ->
+  let s := run (init ids act) ops in
+  (forall id, In id (snd (step s WFlush)) -> ~ lsm_needed s (fst (step s WFlush)) id) /\
+  (forall id, In id (recovery_removed s) -> ~ lsm_needed s s id) /\
+  (no_raft ops = true -> (forall o, is_raft_op o = false -> safe_step s o) /\ safe_recovery s).
+Proof.
+  intros Hact Hf s.
+  assert (HI : InvL s) by (apply run_invl; [apply invl_init; exact Hact|exact Hf]).
+  split; [exact (flush_lsm_safe s HI)|]. split; [exact (recovery_lsm_safe s HI)|].
+  intros Hn. assert (Hg : s_groups s = []) by (apply run_groups_nil; [exact Hn|reflexivity]).
+  split; [intros o Ho; apply safe_no_raft; assumption|apply safe_recovery_no_raft; assumption].
+Qed.
+
+(** non-vacuity: a standalone history with rotations, flushes and watchdog runs *)
+Definition w0 : list wop :=
+  [WPut 0 1; WRotate 2; WPut 0 2; WPut 1 3; WFlush; WRotate 3; WWatchdog; WFlush].
+Example w0_ok : fresh_rotations 1 w0 /\ no_raft w0 = true /\ seg_ids (s_segs (run (init [1] 1) w0)) = [3].
+Proof. cbn. repeat split; lia. Qed.
+Example w1_fresh : fresh_rotations 1 [WPut 0 1; WAppend 1 1 [(1, 5); (1, 6)]; WRotate 2; WSetHs 1 (HS 1 1 0)].
+Proof. cbn. lia. Qed.
